@@ -201,6 +201,11 @@ def _t_opassign(line, arg=None):
     return re.sub(r'^(\s*)(\w+) /= (.+);\s*$', r'\1\2 = \2 / \3;', line)
 
 
+def _t_one_shl(line, arg=None):
+    """`Uint::ONE << (E)` -> `ol_uint_one_shl(E)` (outlined: associated constants of foreign types are unsupported)"""
+    return re.sub(r'Uint::ONE << \(([^()]*)\)', r'ol_uint_one_shl(\1)', line)
+
+
 def _t_sort(line, arg=None):
     """`v.sort();` -> `ol_sort(&mut v);` (outlined slice sort with its assumed contract)"""
     return re.sub(r'^(\s*)(\w+)\.sort\(\);\s*$', r'\1ol_sort(&mut \2);', line)
@@ -220,7 +225,7 @@ def _t_r7(line, arg=None):
     return '%slet verif_%s = [%s]; for verif_i_%s in 0..verif_%s.len()' % (ind, x, lst, x, x)
 
 
-TRANSFORMERS = [('Rdiv', _t_opassign), ('R10', _t_r10), ('Rit', _t_forit), ('Rfor', _t_forname), ('R8', _t_r8), ('Rsort', _t_sort), ('R7', _t_r7), ('R1', _t_r1), ('R1u', _t_unsafe), ('ret', _t_ret), ('brace', _t_brace)]
+TRANSFORMERS = [('Rone', _t_one_shl), ('Rdiv', _t_opassign), ('R10', _t_r10), ('Rit', _t_forit), ('Rfor', _t_forname), ('R8', _t_r8), ('Rsort', _t_sort), ('R7', _t_r7), ('R1', _t_r1), ('R1u', _t_unsafe), ('ret', _t_ret), ('brace', _t_brace)]
 
 
 def infer_transform(pinned_line, ann_line):
@@ -256,6 +261,7 @@ def key(line):
     s = line.strip()
     if s == '{':
         return '<<brace>>'
+    s = re.sub(r'ol_uint_one_shl\(([^()]*)\)', r'Uint::ONE << (\1)', s)
     md = re.match(r'^(\w+) = (\w+) / (.+);$', s)
     if md and md.group(1) == md.group(2):
         return '%s /= %s;' % (md.group(1), md.group(3))
